@@ -53,6 +53,8 @@ inline MArr m_reextent(MArr const& old, std::vector<idx> const& ne, int dflt) {
 	return n;
 }
 
+template<class P> auto rawp(P const& p) { if constexpr(std::is_pointer_v<P>) { return p; } else { return p.verif_raw(); } }   // harness-side raw view of a (possibly fancy) pointer
+
 // ---------- reading the real array ----------
 template<class A> void collect(A const& a, std::vector<int>& out) {
 	if constexpr(A::rank_v == 0) { out.push_back(instr::val(static_cast<typename A::element_type const&>(a))); }
